@@ -74,6 +74,7 @@ class Ctx:
         self.bases = {}              # key -> (s SymR, c SymR)
         self.base_terms = {}         # key -> z3 term of the base angle (atom/d)
         self.base_order = []
+        self.qbases = {}
         self.angle_alias = {}        # z3 var name -> z3 term it is congruent to mod 2pi
         self.pi = None
         self.feas_timeout_ms = feas_timeout_ms
@@ -784,77 +785,92 @@ def sym_log(x):
 # angle algebra
 # --------------------------------------------------------------------------
 
-def _decompose(t, c, for_trig=True):
-    """z3 real term -> (dict key -> (atom term, Fraction coeff), const Fraction).
-    key is the z3 ast id of the atom."""
-    out = {}
-    const = Fraction(0)
+def _poly(t, c, for_trig=True):
+    """z3 real term -> polynomial normal form over primitive atoms:
+    ({monomial: Fraction}, {atom id: term}); a monomial is a sorted tuple of atom
+    ids (with repetition); () is the constant monomial."""
+    prims = {}
 
-    def add(atom, q):
-        k = atom.get_id()
-        if k in out:
-            a, q0 = out[k]
-            out[k] = (a, q0 + q)
-        else:
-            out[k] = (atom, q)
+    def const(v):
+        return {(): Fraction(v)} if v != 0 else {}
 
-    def walk(t, q):
-        nonlocal const
+    def padd(p, q, sign=1):
+        out = dict(p)
+        for m, v in q.items():
+            nv = out.get(m, 0) + sign * v
+            if nv == 0:
+                out.pop(m, None)
+            else:
+                out[m] = nv
+        return out
+
+    def pmul(p, q):
+        out = {}
+        for m1, v1 in p.items():
+            for m2, v2 in q.items():
+                m = tuple(sorted(m1 + m2))
+                nv = out.get(m, 0) + v1 * v2
+                if nv == 0:
+                    out.pop(m, None)
+                else:
+                    out[m] = nv
+        return out
+
+    def prim(t):
+        prims[t.get_id()] = t
+        return {(t.get_id(),): Fraction(1)}
+
+    def walk(t):
         if z3.is_rational_value(t):
-            const += q * Fraction(t.numerator_as_long(), t.denominator_as_long())
-            return
+            return const(Fraction(t.numerator_as_long(), t.denominator_as_long()))
         if z3.is_int_value(t):
-            const += q * t.as_long()
-            return
+            return const(t.as_long())
         if z3.is_app(t):
             k = t.decl().kind()
             ch = t.children()
             if k == z3.Z3_OP_ADD:
+                out = {}
                 for x in ch:
-                    walk(x, q)
-                return
+                    out = padd(out, walk(x))
+                return out
             if k == z3.Z3_OP_SUB:
-                walk(ch[0], q)
+                out = walk(ch[0])
                 for x in ch[1:]:
-                    walk(x, -q)
-                return
+                    out = padd(out, walk(x), -1)
+                return out
             if k == z3.Z3_OP_UMINUS:
-                walk(ch[0], -q)
-                return
+                return padd({}, walk(ch[0]), -1)
             if k == z3.Z3_OP_MUL:
-                coef = Fraction(1)
-                rest = []
+                out = {(): Fraction(1)}
                 for x in ch:
-                    if z3.is_rational_value(x):
-                        coef *= Fraction(x.numerator_as_long(), x.denominator_as_long())
-                    elif z3.is_int_value(x):
-                        coef *= x.as_long()
-                    else:
-                        rest.append(x)
-                if not rest:
-                    const += q * coef
-                    return
-                if len(rest) == 1:
-                    walk(rest[0], q * coef)
-                    return
-                prod = rest[0]
-                for x in rest[1:]:
-                    prod = prod * x
-                add(prod, q * coef)
-                return
+                    out = pmul(out, walk(x))
+                    if len(out) > 400:
+                        return prim(t)
+                return out
             if k == z3.Z3_OP_DIV and (z3.is_rational_value(ch[1]) or z3.is_int_value(ch[1])):
                 d = Fraction(ch[1].numerator_as_long(), ch[1].denominator_as_long())
-                walk(ch[0], q / d)
-                return
+                return {m: v / d for m, v in walk(ch[0]).items()}
             if for_trig and k == z3.Z3_OP_UNINTERPRETED and not ch:
                 alias = c.angle_alias.get(str(t))
                 if alias is not None:
-                    walk(alias, q)
-                    return
-        add(t, q)
+                    return walk(alias)
+        return prim(t)
 
-    walk(z3.simplify(t), Fraction(1))
-    return {k: v for k, v in out.items() if v[1] != 0}, const
+    return walk(z3.simplify(t)), prims
+
+
+def _mono_term(mono, prims):
+    t = None
+    for i in mono:
+        t = prims[i] if t is None else t * prims[i]
+    return t
+
+
+def _decompose(t, c, for_trig=True):
+    """z3 real term -> ({monomial: (atom term, Fraction coeff)}, const Fraction)"""
+    poly, prims = _poly(t, c, for_trig)
+    const = poly.pop((), Fraction(0))
+    return {m: (_mono_term(m, prims), q) for m, q in poly.items()}, const
 
 
 def _base_trig(c, key, base_term):
@@ -944,7 +960,7 @@ def trig(x):
     parts, const = _decompose(x.term(), c)
     s, co = SymR(0), SymR(1)
     quarter = 0
-    pi_id = c.pi.get_id() if c.pi is not None else None
+    pi_id = (c.pi.get_id(),) if c.pi is not None else None
     for k, (atom, q) in sorted(parts.items(), key=lambda kv: str(kv[1][0])):
         if k == pi_id:
             q4 = q * 2          # multiples of pi/2
@@ -955,6 +971,21 @@ def trig(x):
             key = ('pifrac', q.denominator)
             bs, bc = _base_trig(c, key, c.pi / q.denominator)
             ms, mc = _multiple(bs, bc, q.numerator)
+        elif abs(q.numerator) > 12:
+            # large multiplier (e.g. a float coefficient): q0*atom is its own base
+            # angle; later coefficients that are small integer multiples of q0 reuse it
+            q0 = None
+            for cand in c.qbases.get(k, []):
+                ratio = q / cand
+                if ratio.denominator == 1 and abs(ratio.numerator) <= 12:
+                    q0 = cand
+                    break
+            if q0 is None:
+                q0 = q
+                c.qbases.setdefault(k, []).append(q0)
+            key = (k, 'q', q0)
+            bs, bc = _base_trig(c, key, atom * _q(q0))
+            ms, mc = _multiple(bs, bc, int(q / q0))
         else:
             key = (k, q.denominator)
             bs, bc = _base_trig(c, key, atom / q.denominator if q.denominator != 1 else atom)
